@@ -809,7 +809,10 @@ impl<'a> Parser<'a> {
                 continue;
             }
 
-            members.push(self.parse_class_member()?);
+            // Members that exist only for the type checker produce nothing
+            if let Some(member) = self.parse_class_member()? {
+                members.push(member);
+            }
         }
 
         self.require_token(&TokenKind::RBrace)?;
@@ -818,7 +821,9 @@ impl<'a> Parser<'a> {
         Ok(ClassBody { members, span })
     }
 
-    fn parse_class_member(&mut self) -> Result<ClassMember, JsError> {
+    /// Parse one class member. Returns None for members without run-time meaning: overload
+    /// and abstract signatures (no body), abstract and `declare` fields.
+    fn parse_class_member(&mut self) -> Result<Option<ClassMember>, JsError> {
         let start = self.current.span;
 
         // Parse decorators first
@@ -829,6 +834,7 @@ impl<'a> Parser<'a> {
         // directly followed by `(`, `=`, `:`, `;`, ... is the member's own name: `static() {}`.
         let mut static_ = false;
         let mut is_abstract = false;
+        let mut declare = false;
         let mut accessibility = None;
         let mut readonly = false;
         let mut accessor = false;
@@ -856,7 +862,8 @@ impl<'a> Parser<'a> {
                     accessibility = self.parse_accessibility();
                     continue;
                 }
-                // declare, override
+                TokenKind::Declare => declare = true,
+                // override
                 _ => {}
             }
             self.advance();
@@ -864,7 +871,7 @@ impl<'a> Parser<'a> {
             // Check for static initialization block: static { ... }
             if static_ && self.check(&TokenKind::LBrace) {
                 let block = self.parse_block_statement()?;
-                return Ok(ClassMember::StaticBlock(block));
+                return Ok(Some(ClassMember::StaticBlock(block)));
             }
         }
 
@@ -881,14 +888,19 @@ impl<'a> Parser<'a> {
         if !static_ && self.check_keyword("constructor") {
             self.advance();
             let params = self.parse_function_params()?;
+            // Overload signature: constructor(x: number);
+            if !self.check(&TokenKind::LBrace) {
+                self.expect_semicolon()?;
+                return Ok(None);
+            }
             let body = self.parse_block_statement()?;
             let span = self.span_from(start);
-            return Ok(ClassMember::Constructor(Box::new(ClassConstructor {
+            return Ok(Some(ClassMember::Constructor(Box::new(ClassConstructor {
                 params,
                 body,
                 accessibility,
                 span,
-            })));
+            }))));
         }
 
         // Check for getter/setter (`get() {}` and `set = 1` are members called get and set)
@@ -903,6 +915,7 @@ impl<'a> Parser<'a> {
         };
 
         let (key, computed) = self.parse_class_element_name()?;
+        let optional = self.match_token(&TokenKind::Question);
 
         // Method or property?
         if self.check(&TokenKind::LParen) || self.check(&TokenKind::Lt) {
@@ -911,17 +924,13 @@ impl<'a> Parser<'a> {
             let params: Rc<[_]> = self.parse_function_params()?.into();
             let return_type = self.parse_optional_return_type()?;
 
-            // Abstract methods have no body - just a semicolon
-            let body = if is_abstract {
+            // A signature without a body (abstract method, overload, optional method `m?(): T;`)
+            // declares no method: an inherited one stays visible
+            if !self.check(&TokenKind::LBrace) {
                 self.expect_semicolon()?;
-                // Create empty body for abstract methods (they're never called at runtime)
-                Rc::new(BlockStatement {
-                    body: Rc::from([]),
-                    span: self.span_from(start),
-                })
-            } else {
-                Rc::new(self.parse_block_statement()?)
-            };
+                return Ok(None);
+            }
+            let body = Rc::new(self.parse_block_statement()?);
 
             let value = FunctionExpression {
                 id: None,
@@ -935,7 +944,7 @@ impl<'a> Parser<'a> {
             };
 
             let span = self.span_from(start);
-            Ok(ClassMember::Method(Box::new(ClassMethod {
+            Ok(Some(ClassMember::Method(Box::new(ClassMethod {
                 key,
                 value,
                 kind: method_kind,
@@ -944,10 +953,9 @@ impl<'a> Parser<'a> {
                 accessibility,
                 decorators,
                 span,
-            })))
+            }))))
         } else {
             // Property
-            let optional = self.match_token(&TokenKind::Question);
             let type_annotation = if self.match_token(&TokenKind::Colon) {
                 Some(Box::new(self.parse_type_annotation()?))
             } else {
@@ -962,8 +970,13 @@ impl<'a> Parser<'a> {
 
             self.expect_semicolon()?;
 
+            // `abstract x: T` and `declare x: T` only describe a field that exists elsewhere
+            if is_abstract || declare {
+                return Ok(None);
+            }
+
             let span = self.span_from(start);
-            Ok(ClassMember::Property(Box::new(ClassProperty {
+            Ok(Some(ClassMember::Property(Box::new(ClassProperty {
                 key,
                 value,
                 type_annotation,
@@ -975,7 +988,7 @@ impl<'a> Parser<'a> {
                 accessibility,
                 decorators,
                 span,
-            })))
+            }))))
         }
     }
 
